@@ -36,6 +36,17 @@
 (* (rows, max_norm binding or not, alphabet kind) that the replay rotates  *)
 (* through; it is exported once (CONF).                                    *)
 (*                                                                         *)
+(* max_norm.  The constructor admits any real max_norm (no validation); the *)
+(* rescaling is applied iff max_norm > 0.  Only that sign enters the       *)
+(* transitions and the clauses, so it is a state variable (clipOn, never   *)
+(* changed by a call or a reset) and every history is explored with the    *)
+(* rescaling enabled AND disabled: with clipOn = FALSE the norm clause is  *)
+(* vacuous (the output is weights . J, not rescaled) while the schedule,   *)
+(* period and reset clauses are the same - none of PropRecompute,          *)
+(* PropChain, PropRef mentions clipOn.  The presentations of clipOn = TRUE *)
+(* are max_norm binding / loose, those of clipOn = FALSE are max_norm = 0  *)
+(* and a negative max_norm (ClipModes, ClipOn).                            *)
+(*                                                                         *)
 (* Period statement ("reused unchanged in between"): the weights in force  *)
 (* at a reuse call are THE weights of the recompute call that opened its   *)
 (* period (PropRef) - stated on terms here (PeriodWeights) and observed on *)
@@ -49,13 +60,14 @@ CONSTANTS MaxLen,     \* histories of at most MaxLen events
           NIters      \* optim_niter in NIters
 
 VARIABLES k,          \* update_weights_every
+          clipOn,     \* max_norm > 0 (constructor parameter, abstracted to what the code tests)
           niter,      \* optim_niter (constructor parameter; budget of the inner loop of a Solve)
           hist,       \* the history so far: sequence over Syms \cup {"reset"}
           inst,       \* the instance under test   [step, built, alpha, normF]
           fresh,      \* a copy constructed at the last reset point (at the start if none)
           calls       \* per call event of hist: what the implementation layer did
 
-vars == <<k, niter, hist, inst, fresh, calls>>
+vars == <<k, clipOn, niter, hist, inst, fresh, calls>>
 
 -----------------------------------------------------------------------------
 (* Terms                                                                   *)
@@ -63,6 +75,7 @@ Ones          == <<"ones">>
 SolveT(n, J, w) == <<"solve", n, J, w>>  \* n = optim_niter of the instance that solves
 NormT(J)      == <<"norm", J>>
 ClipT(a, J)   == <<"clip", a, J>>        \* a if |a.J| <= max_norm else a * max_norm / |a.J|; then . J
+CombT(a, J)   == <<"comb", a, J>>        \* a . J, never rescaled (max_norm <= 0)
 
 \* a weights term is a linear chain; its flat form lists the matrices, innermost first:
 \* Chain(Solve(B, Solve(A, ones))) = <<A, B>>
@@ -99,9 +112,12 @@ ResetInst(i) == [step |-> 0, built |-> i.built, alpha |-> Ones, normF |-> "one"]
 \* (a stale problem is rebuilt by the init branch before it is used)
 Obs(i) == [step |-> i.step, alpha |-> i.alpha, normF |-> i.normF]
 
-OutTerm(i, J) == ClipT(i.alpha, J)          \* evaluated on the state AFTER the weights update
+\* evaluated on the state AFTER the weights update (and after the counter has advanced: the clip
+\* branch `if max_norm > 0` touches no field - whether it is taken or not the step is i.step + 1)
+OutTerm(i, J, on) == IF on THEN ClipT(i.alpha, J) ELSE CombT(i.alpha, J)
 
 Init == /\ k \in 1..MaxK
+        /\ clipOn \in BOOLEAN
         /\ niter \in NIters
         /\ hist = <<>>
         /\ inst = NewInst /\ fresh = NewInst
@@ -121,15 +137,15 @@ Call(J) == /\ Len(hist) < MaxLen
                                               ELSE calls[Len(calls)].ref,
                                       weights |-> inst'.alpha,
                                       chain |-> Chain(inst'.alpha),
-                                      out |-> OutTerm(inst', J),
-                                      freshOut |-> OutTerm(fresh', J)])
-           /\ UNCHANGED <<k, niter>>
+                                      out |-> OutTerm(inst', J, clipOn),
+                                      freshOut |-> OutTerm(fresh', J, clipOn)])
+           /\ UNCHANGED <<k, clipOn, niter>>
 
 Reset == /\ Len(hist) < MaxLen
          /\ hist' = Append(hist, "reset")
          /\ inst' = ResetInst(inst)
          /\ fresh' = NewInst                       \* a newly constructed instance, same parameters
-         /\ UNCHANGED <<k, niter, calls>>
+         /\ UNCHANGED <<k, clipOn, niter, calls>>
 
 Next == (\E J \in Syms : Call(J)) \/ Reset
 Spec == Init /\ [][Next]_vars
@@ -153,7 +169,9 @@ PropChain(h, kk, i) ==
     IN  F[i]
 RECURSIVE TermOfChain(_, _)
 TermOfChain(c, n) == IF c = <<>> THEN Ones ELSE SolveT(n, c[Len(c)], TermOfChain(SubSeq(c, 1, Len(c) - 1), n))
-PropOut(h, kk, n, i) == ClipT(TermOfChain(PropChain(h, kk, i), n), h[i])
+\* the norm clause (|out| <= max_norm) is part of the statement only when max_norm > 0
+PropOut(h, kk, n, on, i) == LET w == TermOfChain(PropChain(h, kk, i), n)
+                            IN  IF on THEN ClipT(w, h[i]) ELSE CombT(w, h[i])
 \* position of the recompute call that opened the period of the call at position i
 \* (no reset lies between the two: a segment contains no reset)
 PropRef(h, kk, i) == i - (Since(h, i) % kk)
@@ -162,6 +180,7 @@ PropRef(h, kk, i) == i - (Since(h, i) % kk)
 (* Checked by TLC on Spec                                                  *)
 
 TypeOK == /\ k \in 1..MaxK
+          /\ clipOn \in BOOLEAN
           /\ niter \in NIters
           /\ hist \in Seq(Syms \cup {"reset"}) /\ Len(hist) <= MaxLen
           /\ inst.step \in 0..MaxLen /\ inst.built \in BOOLEAN
@@ -183,10 +202,13 @@ ResetRestoresInit == [][(hist' # hist /\ IsReset(hist'[Len(hist')])) => Obs(inst
 ScheduleOK == \A c \in DOMAIN calls :
                  /\ calls[c].recompute = PropRecompute(hist, k, calls[c].at)
                  /\ calls[c].chain = PropChain(hist, k, calls[c].at)
-                 /\ calls[c].out = PropOut(hist, k, niter, calls[c].at)
+                 /\ calls[c].out = PropOut(hist, k, niter, clipOn, calls[c].at)
                  /\ AllNiter(calls[c].weights, niter)
                  /\ (calls[c].branch = "reuse") = ~calls[c].recompute
                  /\ (calls[c].branch = "init") = (Since(hist, calls[c].at) = 0)
+
+\* the rescaling is applied to every call (recompute or reuse) when max_norm > 0 and to none otherwise
+ClipIffEnabled == \A c \in DOMAIN calls : (calls[c].out[1] = "clip") = clipOn
 
 \* "reused unchanged in between": a reuse call leaves weights and normalisation untouched
 ReuseKeepsWeights ==
@@ -211,26 +233,29 @@ StepIsSince == inst.step = Len(hist) - LastReset(hist, Len(hist) + 1)
 
 -----------------------------------------------------------------------------
 (* Scenario export: one line per complete history (every prefix is covered by it)          *)
-Scenario == [k |-> k, niter |-> niter, hist |-> hist,
+Scenario == [k |-> k, clip |-> clipOn, niter |-> niter, hist |-> hist,
              calls |-> [c \in DOMAIN calls |->
                           [at |-> calls[c].at, sym |-> calls[c].sym, branch |-> calls[c].branch,
                            recompute |-> calls[c].recompute, ref |-> calls[c].ref,
-                           chain |-> calls[c].chain]]]
+                           clip |-> clipOn, chain |-> calls[c].chain]]]
 
 \* Presentation space of the replay (interpretation of the symbols and of clip; no effect on the
-\* transitions): number of rows, max_norm binding on most recomputations or on few, and the kind
-\* of matrix alphabet:
+\* transitions beyond clipOn): number of rows, the value of max_norm - for clipOn = TRUE binding on
+\* most recomputations or on few, for clipOn = FALSE zero or negative -, and the kind of matrix
+\* alphabet:
 \*   ordinary  well-conditioned (cond <= 3), power-of-two scale per symbol
 \*   small     the same times 2^-10 (the inner loop exhausts even the default budget)
 \*   gauss     gaussian rows (cond <= 20), power-of-two scale per symbol
 \*   struggle  gaussian matrices selected, by a seeded search on the code under test, so that the
 \*             solver returns no solution on some recomputation that is not the first of a segment
 Rows          == 2..5
-ClipModes     == {"binding", "loose"}
+ClipModes     == {"binding", "loose", "zero", "negative"}
+ClipOn(c)     == c \in {"binding", "loose"}            \* the modes with max_norm > 0
 AlphabetKinds == {"ordinary", "small", "gauss", "struggle"}
-Presentations == [m : Rows, clip : ClipModes, alphabet : AlphabetKinds]
+Presentations == {[m |-> m, clip |-> c, on |-> ClipOn(c), alphabet |-> a] :
+                     m \in Rows, c \in ClipModes, a \in AlphabetKinds}
 MinOf(S)      == CHOOSE x \in S : \A y \in S : x <= y
 
 Export == /\ (Len(hist) = MaxLen) => PrintT(<<"SCN", ToJson(Scenario)>>)
-          /\ (hist = <<>> /\ k = 1 /\ niter = MinOf(NIters)) => PrintT(<<"CONF", ToJson(Presentations)>>)
+          /\ (hist = <<>> /\ k = 1 /\ clipOn /\ niter = MinOf(NIters)) => PrintT(<<"CONF", ToJson(Presentations)>>)
 =============================================================================
